@@ -338,6 +338,19 @@ def guarded(prog, f, flow, pr, n, subjects):
                 return True, expr_str(prog, f, a["cond"])
             if cur is a.get("then") and a.get("else") and throws(a.get("else")) and mentions(a["cond"]):
                 return True, expr_str(prog, f, a["cond"])
+        if k == "binop" and a.get("op") == "||" and cur is a.get("rhs") and mentions(a["lhs"]):
+            # `if (guard || uses(x)) throw`: the use is evaluated only when the guard is false, and a true guard throws
+            top = a
+            for up in flow.ancestors(a):
+                if up.get("k") == "binop" and up.get("op") == "||":
+                    top = up
+                    continue
+                if up.get("k") == "if" and not up.get("constexpr") and strip_casts(up.get("cond")) is strip_casts(top) and throws(up.get("then")):
+                    return True, expr_str(prog, f, a["lhs"])
+                if up.get("k") in ("paren", "cast", "implicit"):
+                    top = up
+                    continue
+                break
         if k == "block":
             sibs = a.get("s", [])
             idx = next((i for i, s in enumerate(sibs) if s is cur), None)
